@@ -9,7 +9,9 @@ import (
 	"net/url"
 	"path/filepath"
 	"sort"
+	"strconv"
 	"strings"
+	"time"
 
 	"github.com/emersion/go-webdav/internal"
 	vrt "github.com/emersion/go-webdav/internal/zz_verifrt"
@@ -68,6 +70,9 @@ type verifReq struct {
 
 var verifC01Methods = []string{"OPTIONS", "GET", "HEAD", "PUT", "DELETE", "MKCOL", "COPY", "MOVE", "PROPFIND", "PROPPATCH", "BREW"}
 
+// verifOnlyMethods restricts symRequest to some methods (nil: all of them).
+var verifOnlyMethods []string
+
 func symHeader(tag string, literals []string) (string, bool) {
 	k := vrt.Choose(tag+"-form", len(literals)+2)
 	switch {
@@ -87,6 +92,13 @@ func symHeader(tag string, literals []string) (string, bool) {
 func symRequest(t *verifTree, faults bool) *verifReq {
 	r := &verifReq{bodyFails: -1}
 	r.method = verifC01Methods[vrt.Choose("method", len(verifC01Methods))]
+	if verifOnlyMethods != nil {
+		ok := false
+		for _, m := range verifOnlyMethods {
+			ok = ok || m == r.method
+		}
+		vrt.Assume(ok)
+	}
 	r.pi = vrt.Choose("path", len(t.paths))
 	r.path = t.paths[r.pi]
 	switch r.method {
@@ -491,6 +503,7 @@ func checkStep(run *verifRun, tag string) {
 				vrt.Assert(rec.body() == "", "HEAD: no body")
 			}
 			vrt.Assert(rec.hdr.Get("ETag") == internal.ETag(fi.ETag).String(), "GET/HEAD: ETag is the resource's tag")
+			vrt.Assert(rec.hdr.Get("Content-Length") == strconv.FormatInt(int64(len(verifContentBytes(run.before.content[req.pi]))), 10), "GET/HEAD: Content-Length is the stored size")
 			if !vrt.Symbolic() || true {
 				vrt.Assert(rec.hdr.Get("Last-Modified") == fi.ModTime.UTC().Format(http.TimeFormat), "GET/HEAD: Last-Modified is the stored modification time")
 			}
@@ -590,6 +603,18 @@ func checkPropfind(run *verifRun) {
 			var ge internal.GetETag
 			err = verifDecodeProp(resp, &ge)
 			vrt.Assert(err == nil && string(ge.ETag) != "", "PROPFIND: getetag reported for files")
+			// one and the same tag as Stat (and therefore GET, HEAD, PUT) reports
+			if fi, serr := LocalFileSystem(run.root).Stat(nil, p); serr == nil && err == nil {
+				vrt.Assert(string(ge.ETag) == fi.ETag, "PROPFIND: getetag is the tag GET and PUT announce")
+			}
+		}
+		if fi, serr := LocalFileSystem(run.root).Stat(nil, p); serr == nil {
+			var lm internal.GetLastModified
+			if err := verifDecodeProp(resp, &lm); err == nil {
+				vrt.Assert(time.Time(lm.LastModified).Unix() == fi.ModTime.Unix(), "PROPFIND: getlastmodified is the stored modification time")
+			} else {
+				vrt.Fail("PROPFIND: getlastmodified reported")
+			}
 		}
 	}
 }
